@@ -2,6 +2,8 @@
 EXTENDS IntWidth, TLC, Json
 ASSUME OrderSound
 ASSUME NPoints = 53
-Emit == Done => PrintT(<<"CASE", ToJson([lo |-> lo, hi |-> hi, ext |-> ext, pos |-> pos, ty |-> ty, form |-> form, val |-> val])>>)
-\* quick tier: only the positions in QuickPos are emitted for every pair
+Emit == Done => PrintT(<<"CASE", ToJson([lo |-> lo, hi |-> hi, ext |-> ext, pos |-> pos, ty |-> ty, form |-> form, val |-> val, op |-> op, lo2 |-> lo2, hi2 |-> hi2])>>)
+OpsNone == {"none"}
+OpsAll == {"none", "|", "^", "serial"}
+OpsSet == {"|", "^", "serial"}
 =============================================================================
